@@ -40,7 +40,7 @@ def run(ctx):
     # ... and members whose user-database entry is longer than the daemon's initial lookup buffer (the lookup must be
     # repeated with a larger buffer, not answered from what the previous lookup left behind)
     db = {"groups": [(700, ["ann", "bob"]), (701, ["cat"]), (700, ["dan"]), (702, []), (0, ["eve"]), (703, ["ghost", "ann2"]),
-                     (704, ["fay", "longbob", "gus", "longest"])],
+                     (704, ["fay", "longbob", "gus", "longest"]), (706, ["3999", "3002", "cat"])],   # all-digit names nobody bears
           "users": [("ann", 3001), ("bob", 3002), ("cat", 3003), ("dan", 3004), ("eve", 3005), ("ann2", 3001), ("root", 0),
                     ("fay", 3011), ("longbob", 3010, 3000), ("gus", 3012), ("longest", 3013, 70000)]}
     pw = {}
@@ -56,9 +56,9 @@ def run(ctx):
         ctx.violation("daemon does not start", {"obligation": "start", "stderr": ""}, found_input=False)
         return
     time.sleep(0.4)   # initial group map load runs on the timer thread
-    clients = [(3001, 50), (3002, 700), (3004, 51), (3003, 52), (0, 0), (0, 700), (3010, 55), (3011, 56), (3013, 57), (3999, 53), (3005, 54)]
+    clients = [(3001, 50), (3002, 700), (3004, 51), (3003, 52), (0, 0), (3999, 53), (0, 700), (3010, 55), (3011, 56), (3013, 57), (3005, 54)]
     if not ctx.thorough:
-        clients = clients[:9]
+        clients = clients[:10]
     T0 = 1600000000
     fails, mism = [], []
     states = ["fresh", "expired", "rewound", "decoded"]
@@ -66,7 +66,7 @@ def run(ctx):
     n = 0
     for (cu, cg) in clients:
         for au in (ANY, cu, 3002 if cu != 3002 else 3001, 0):
-            for ag in (ANY, cg, 700, 701, 704, 0):
+            for ag in (ANY, cg, 700, 701, 704, 706, 0):
                 for state in states:
                     n += 1
                     if not ctx.thorough and state != "fresh" and (n % 3):
